@@ -54,8 +54,21 @@ impl std::fmt::Display for AssetClass {
     }
 }
 
-#[derive(Serialize, Deserialize, Debug, Clone, PartialEq, Eq)]
+#[derive(Serialize, Deserialize, Debug, Clone, Eq)]
 pub struct CanonicalAssets(HashMap<AssetClass, i128>);
+
+impl PartialEq for CanonicalAssets {
+    /// Equality is semantic: an entry with amount zero is the same as no entry,
+    /// however the value was constructed.
+    fn eq(&self, other: &Self) -> bool {
+        let covers = |a: &Self, b: &Self| {
+            a.iter()
+                .all(|(class, amount)| b.get(class).copied().unwrap_or(0) == *amount)
+        };
+
+        covers(self, other) && covers(other, self)
+    }
+}
 
 impl std::fmt::Display for CanonicalAssets {
     fn fmt(&self, f: &mut std::fmt::Formatter<'_>) -> std::fmt::Result {
